@@ -9,7 +9,7 @@ Full-strength statement (the property), for every option set `o`:
 The code deviates in six classes, each with a kernel-checked witness below:
     NilAtCycle (DESIGN §7 #19), HasQuoted (#32), DupNames, Dangling, WrongComponent, RecContainer (round 3).
 -/
-import KinModel.Lemmas.C18Fin
+import KinModel.Lemmas.C18Dang
 import KinModel.Gen.GenKinds
 namespace KinModel.Gen3
 
@@ -114,6 +114,46 @@ theorem gen_sound_partial (Δ : Decls) (o : Opts) (fuel : Nat) (t : GoType) (s :
   rw [← he] at hn ⊢
   exact encode_sound_partial Δ (typeName o) Γ (stripPtr t) s v' hΓ hinj (relS_mono hmono s _ hr) hv'
     (by unfold HasQuoted at hq ⊢; rwa [heredAll_strip]) (by unfold DupNames at hd ⊢; rwa [heredAll_strip]) hn
+
+/-- **No dangling component under the default option set** (no type-name generator, no component export, no
+customizer; UseAllExportedFields and ThrowErrorOnCycle arbitrary): every name registered by cycle cutting is the name
+of a declared struct that is still on the parent chain (the chain below a container continues with its element type,
+so a container met again lies above the struct at the end of its spine), and that struct is stored with at least
+the property that led to the cut. `Dangling` (F-C18-4) therefore needs a type-name generator, component export or a
+customizer. -/
+theorem gen_no_dangling_default (Δ : Decls) (o : Opts) (ho : o.tng = none ∧ o.exp = false ∧ o.cust = false)
+    (fuel : Nat) (t : GoType) (s : Sch) (σ : St) (hg : genRoot Δ o fuel t = (.ok s, σ)) (ha : σ.anon = false) :
+    ¬ Dangling σ := by
+  have := default_no_dangling Δ o ⟨ho.1, ho.2.1, ho.2.2⟩ fuel t s σ hg ha
+  unfold Dangling; rw [this]; simp
+
+/-- … hence, under the default option set, references resolve with no hypothesis besides the ghost flag … -/
+theorem gen_refs_resolve_default (Δ : Decls) (o : Opts) (ho : o.tng = none ∧ o.exp = false ∧ o.cust = false)
+    (fuel : Nat) (t : GoType) (s : Sch) (σ : St) (Γ : Comps)
+    (hg : genRoot Δ o fuel t = (.ok s, σ)) (ha : σ.anon = false) (hl : LoopResult σ Γ) : Resolves Γ s :=
+  gen_refs_resolve Δ o fuel t s σ Γ hg ha hl (gen_no_dangling_default Δ o ho fuel t s σ hg ha)
+
+/-- … and soundness needs neither the `Dangling` exclusion nor the injectivity hypothesis. -/
+theorem gen_sound_default (Δ : Decls) (o : Opts) (ho : o.tng = none ∧ o.exp = false ∧ o.cust = false)
+    (fuel : Nat) (t : GoType) (s : Sch) (σ : St) (Γ : Comps) (v : GoVal)
+    (hg : genRoot Δ o fuel t = (.ok s, σ)) (hl : LoopResult σ Γ) (hw : ¬ WrongComponent o σ)
+    (hv : HasType Δ v t) (hnn : encode Δ t v ≠ .null)
+    (hq : ¬ HasQuoted Δ t) (hd : ¬ DupNames Δ t) (hn : ¬ NilAtCycle Γ s (encode Δ t v)) :
+    Sat Γ s (encode Δ t v) := by
+  have ha : σ.anon = false := by
+    cases h : σ.anon with
+    | false => rfl
+    | true => exact absurd (by simp [WrongComponent, wrongCandB, h]) hw
+  exact gen_sound_partial Δ o fuel t s σ Γ v hg (tnInj_none Δ o ho.1) hl
+    (gen_no_dangling_default Δ o ho fuel t s σ hg ha) hw hv hnn hq hd hn
+
+/-- The injectivity hypothesis of `gen_sound_partial` holds outright for the usual type-name generators: none, and
+"prefix + Go name"; for a generator with an exception table it is the decidable check `tnInj_of_check`. -/
+theorem type_names_injective (Δ : Decls) (o : Opts) (h : o.tng = none ∨ ∃ p, o.tng = some ⟨p, []⟩) :
+    TnInj Δ (typeName o) := by
+  rcases h with h | ⟨p, h⟩
+  · exact tnInj_none Δ o h
+  · exact tnInj_prefix Δ o p h
 
 /-- **"Schemas generated for recursive types are finite"** — the generator terminates on every type graph, for every
 option set: with `enoughFuel Δ t` fuel (a bound computed from the declarations: along the parent chain every declared
